@@ -16,7 +16,7 @@ T=/tmp/mqverif-cov
 rm -rf "$T"; mkdir -p "$T/prof" "$T/verif"
 cd "$VERIF_DIR/harness"
 export CARGO_NET_OFFLINE=true
-RUSTFLAGS="-Cinstrument-coverage" cargo +nightly build --offline --quiet --target-dir "$T/target"
+LLVM_PROFILE_FILE="$T/prof/build-%p.profraw" RUSTFLAGS="-Cinstrument-coverage" cargo +nightly build --offline --quiet --target-dir "$T/target"
 BIN="$T/target/debug/mqverif"
 # evidence and replays of these runs go to the scratch directory, not to /verif
 mkdir -p "$T/verif/evidence" "$T/verif/replays"
